@@ -68,6 +68,20 @@ def run(rep: common.Report, tier: str, seed: int, replay=None) -> int:
                         f"Build_devnum OpsF {flit(dev.layer.coherence_length)} {flit(dev.layer.london_lambda)} {flit(dev.layer.thickness)})")
             rep.count(1)
             rep.nontrivial((lu, fu, cu))
+            if rng.random() < 0.4:
+                # history form: the SAME device object used again after its layer was changed in place (a parameter sweep);
+                # every scale must follow the new values (nothing may be remembered from the first use)
+                _ = (dev.K0, dev.A0, dev.Bc2, dev.Lambda)
+                dev.layer.london_lambda = dev.layer.london_lambda * 10 ** rng.uniform(-0.5, 0.5)
+                dev.layer.thickness = dev.layer.thickness * 10 ** rng.uniform(-0.5, 0.5)
+                s2 = TDGLSolver(dev, opts, applied_vector_potential=0.0, terminal_currents={"source": 1.0, "drain": -1.0})
+                impls.append((float(s2.A_scale), float(s2.current_func(0.0)["source"]), float(s2.areas[0] / dev.mesh.areas[0]),
+                              {"units": [lu, fu, cu], "xi": dev.layer.coherence_length, "lambda": dev.layer.london_lambda,
+                               "d": dev.layer.thickness, "form": "device reused after an in-place layer change"}))
+                lits.append(f"(Build_usys OpsF {flit(LU[lu])} {flit(FU[fu])} {flit(CU[cu])}, "
+                            f"Build_devnum OpsF {flit(dev.layer.coherence_length)} {flit(dev.layer.london_lambda)} {flit(dev.layer.thickness)})")
+                rep.count(1)
+                rep.nontrivial((lu, fu, cu, "reused"))
     t = ("From Coq Require Import PrimFloat List.\nImport ListNotations.\nFrom PyTdgl Require Import Base.Ops Model.Units.\nOpen Scope float_scope.\n"
          f"Definition Phi0 := {flit(Phi0)}.\nDefinition mu0 := {flit(mu0)}.\nDefinition twopi := {flit(2 * np.pi)}.\nDefinition fourpi := {flit(4 * np.pi)}.\n"
          "Eval vm_compute in map (fun '(u, v) => [A_scale OpsF Phi0 twopi u v; J_scale OpsF Phi0 mu0 twopi u v;\n"
